@@ -274,7 +274,42 @@ pub fn run(case: &Value, _params: &Params, out: &mut Vec<Value>) {
     vals.sort(); vals.dedup();
     let r: Vec<i64> = xi.iter().zip(&nan_at).map(|(&v, &m)| if m { 0 } else { vals.binary_search(&v).unwrap() as i64 + 1 }).collect();
     for (routine, kind, repsv) in table {
-        out.push(json!({"ev": "layout", "routine": routine, "kind": kind, "shape": shape, "r": r, "nreps": repsv.len(), "reps": repsv, "lay": given.to_json()}));
+        out.push(json!({"ev": "layout", "routine": routine, "kind": kind, "shape": shape, "r": r, "nreps": repsv.len(), "want": 7, "reps": repsv, "lay": given.to_json()}));
+    }
+    // two operands that are different views of ONE buffer starting at the same element: the answers must be those
+    // obtained with an independent copy of the second operand
+    {
+        let mut pairs: Vec<(String, String, Vec<Value>)> = Vec::new();
+        let mut addp = |rep: &str, items: Vec<Item>, t: &mut Vec<(String, String, Vec<Value>)>| {
+            for (r, k, v) in items { match t.iter_mut().find(|e| e.0 == r) { Some(e) => e.2.push(json!({"rep": rep, "v": v})), None => t.push((r.to_string(), k.to_string(), vec![json!({"rep": rep, "v": v})])) } }
+        };
+        let wv1 = Array1::from(w1.clone());
+        if nd == 2 && shape[0] == shape[1] && n >= 4 {
+            let m = Array2::from_shape_vec((shape[0], shape[1]), xf.iter().map(|v| if v.is_nan() { 0.5 } else { *v }).collect()).unwrap();
+            let (x, yt) = (m.view(), m.t());
+            let ycopy = yt.to_owned();
+            let (mut i1, mut i2) = (Vec::new(), Vec::new());
+            let ax = axis.min(1);
+            let w = if wv1.len() == shape[ax] { wv1.clone() } else { Array1::from(vec![1.0; shape[ax]]) };
+            if guarded(|| { ro_f64(&x, &yt, &w.view(), ax, &mut i1); ro_f64(&x, &ycopy.view(), &w.view(), ax, &mut i2); }).is_ok() {
+                addp("alias", i1, &mut pairs); addp("copy", i2, &mut pairs);
+            }
+        } else if nd == 1 && n >= 4 {
+            let base = Array1::from(xf.iter().map(|v| if v.is_nan() { 0.5 } else { *v }).collect::<Vec<f64>>());
+            let h = n / 2;
+            let (x, y) = (base.slice(ndarray::s![..h]), base.slice(ndarray::s![..2 * h;2]));
+            let ycopy = y.to_owned();
+            let w = Array1::from(vec![1.0; h]);
+            let (mut i1, mut i2) = (Vec::new(), Vec::new());
+            if guarded(|| { ro_f64(&x, &y, &w.view(), 0, &mut i1); ro_f64(&x, &ycopy.view(), &w.view(), 0, &mut i2); }).is_ok() {
+                addp("alias", i1, &mut pairs); addp("copy", i2, &mut pairs);
+            }
+        }
+        for (routine, kind, repsv) in pairs {
+            if kind == "exact" || kind == "approx" {
+                out.push(json!({"ev": "layout", "routine": format!("{}@alias", routine), "kind": kind, "shape": shape, "r": r, "nreps": repsv.len(), "want": 2, "reps": repsv, "lay": given.to_json()}));
+            }
+        }
     }
     // geometry of the given layout as ndarray reports it (binds the Layout model)
     let p = given.build(&xi, |_| 77);
